@@ -2205,8 +2205,10 @@ class BaseInterpreter(Generic[TContext, TEvent]):
                 # If a region is not active, the parallel state is not done.
                 if not active_in_region:
                     return False
-                # The region itself is "done" if any of its active states are done.
-                if not any(self._is_state_done(d) for d in active_in_region):
+                # The region is "done" when the region itself is done. Asking
+                # whether ANY active descendant is done let a nested parallel
+                # region count as complete as soon as one sub-region was.
+                if not self._is_state_done(region):
                     return False
             # If all regions passed the check, the parallel state is done.
             return True
